@@ -67,9 +67,13 @@ def is_int_const(node):
         return False
 
 
+TYPE_NAMES = ("bool", "int", "float")
+
+
 class Translator:
     def __init__(self, modules):
         self.modules = set(modules)     # names bound by import statements of the file
+        self.locals = set()             # names bound in the function being translated
 
     def dotted(self, node):
         """a.b.c rooted at an imported module -> 'a.b.c', else None"""
@@ -134,6 +138,8 @@ class Translator:
         if isinstance(e, ast.Name):
             if e.id in self.modules:
                 raise Unsupported("module %s used as a value" % e.id)
+            if e.id in TYPE_NAMES and e.id not in self.locals:
+                return "(EConst (VS %s))" % cstr("<type:%s>" % e.id)    # a type object used as a value (dtype=bool)
             return "(EVar %s)" % cstr(e.id)
         if isinstance(e, ast.Constant):
             return const(e.value)
@@ -405,6 +411,7 @@ def translate(path, names):
             if n.decorator_list:
                 raise Unsupported("decorated function " + n.name)
             params = [x.arg for x in a.args]
+            tr.locals = set(params) | {x.id for x in ast.walk(n) if isinstance(x, ast.Name) and isinstance(x.ctx, ast.Store)}
             body = tr.stmts(n.body)
             Fresh(tr).block([s for s in n.body], {}, frozenset())
             found[n.name] = "Definition src_%s : func :=\n  {| f_params := %s;\n     f_body := %s |}.\n" % (
